@@ -9,7 +9,7 @@ def boundary_name(per, kind):
 def rhd_param(outdir, ncell=(8, 8, 8), nsub=(2, 2, 2), periodic=(True, True, True), side=(1.0, 1.0, 1.0),
               anchor=(0.0, 0.0, 0.0), wall="reflective", gamma=5. / 3., total_time=1.0e-3, cfl=0.2,
               min_dt=None, max_dt=None, blocks=None, radiation=False, seed=42, dump_every_step=False,
-              max_backups=1, nphoton=1000, niter=1, riemann="Exact", extra="", relative_paths=False, nsources=1):
+              max_backups=1, nphoton=1000, niter=1, riemann="Exact", extra="", relative_paths=False, nsources=1, source_block=None):
     """Write <outdir>/run.param and <outdir>/blocks.yml; returns the param path.
 
     blocks: list of dicts(origin, sides, n (m^-3), T (K), v (m/s)) - default two
@@ -131,7 +131,7 @@ TemperatureCalculator:
            dumpint="0. s" if dump_every_step else "1.e9 s", maxb=max_backups,
            a0=anchor[0], a1=anchor[1], a2=anchor[2], s0=side[0], s1=side[1], s2=side[2],
            cfl=cfl, rad=bl(radiation), niter=niter, nphoton=nphoton, seed=seed, tt=total_time,
-           psd=("PhotonSourceDistribution:\n  type: SingleStar\n  luminosity: 1.e+46 s^-1\n  position: [%r m, %r m, %r m]\n" % (
+           psd=source_block if source_block else ("PhotonSourceDistribution:\n  type: SingleStar\n  luminosity: 1.e+46 s^-1\n  position: [%r m, %r m, %r m]\n" % (
                anchor[0] + 0.5 * side[0], anchor[1] + 0.5 * side[1], anchor[2] + 0.5 * side[2])) if nsources == 1 else
                ("PhotonSourceDistribution:\n  type: AsciiFile\n  filename: %s/sources.yml\n" % ("." if relative_paths else outdir)),
            dts=("  minimum timestep: %r s\n" % min_dt if min_dt else "") +
